@@ -13,7 +13,7 @@ check('C08',
            '(SeqNum/Length field types on block 0 and the edge set). A small set is repeated under ASan/UBSan in a forked worker. '
            'Floats: for every lattice value v (|v| < 2^31) and every precision q = 0..9, modp_dtoa(v,q), Field<fp_type>(v,q).print, '
            'set_precision+print, encode and the default-precision constructor must give a plain decimal with at most q fraction digits that denotes '
-           'the correctly rounded value of the exact binary expansion of v (either neighbour on an exact tie); the produced text parsed by fast_atof, '
+           'the correctly rounded value of the exact binary expansion of v (on an exact binary tie the even neighbour, as round-to-nearest-even and the correctly rounded printf of the C library give); the produced text parsed by fast_atof, '
            'Field<fp_type>(const char*), (f8String) and set_from_raw must be bit-equal to glibc strtod(text). '
            'Lattice: N*10^-p and (N+1/2)*10^-p for N <= K, p = 0..9; the same around W*10^p for 16 anchor integers W (1 .. 2^31); exact binary '
            'fractions n/2^k and W + n/2^k; specials (0, -0, denormal min, DBL_MIN, values next to 2^31); each with both 1-ulp neighbours and both signs. '
@@ -37,9 +37,9 @@ check('C08',
                   quick=dict(args=['part=int', 'intbits=6', 'block=4', 'nostride=1', 'edged=1', 'edgek=1', 'edgeend=3', 'guard=1'], deadline=60),
                   thorough=dict(args=['part=int', 'intbits=8', 'block=16', 'nostride=1', 'edged=2', 'edgek=1', 'edgeend=8', 'guard=1'], deadline=300)),
              dict(name='float', harness='c08_numeric', variant='san', hang_s=60,
-                  quick=dict(args=['part=float', 'K=2000', 'J=20', 'jtop=1', 'kbits=10', 'nbin=4096', 'kbitstop=1', 'guard=1'], deadline=80),
-                  thorough=dict(args=['part=float', 'K=60000', 'J=600', 'jtop=2', 'kbits=12', 'nbin=65536', 'kbitstop=2', 'guard=1'], deadline=780)),
+                  quick=dict(args=['part=float', 'ties=even', 'K=2000', 'J=20', 'jtop=1', 'kbits=10', 'nbin=4096', 'kbitstop=1', 'guard=1'], deadline=80),
+                  thorough=dict(args=['part=float', 'ties=even', 'K=60000', 'J=600', 'jtop=2', 'kbits=12', 'nbin=65536', 'kbitstop=2', 'guard=1'], deadline=780)),
              # the neighbourhood of 2^31 with large bounds, without sanitizers (the unchanged tree has UB on every other value there)
              dict(name='float-top', harness='c08_numeric', variant='plain',
-                  quick=dict(args=['part=float', 'only=top', 'jtop=200', 'kbitstop=10'], deadline=60),
-                  thorough=dict(args=['part=float', 'only=top', 'jtop=5000', 'kbitstop=14'], deadline=300))])
+                  quick=dict(args=['part=float', 'ties=even', 'only=top', 'jtop=200', 'kbitstop=10'], deadline=60),
+                  thorough=dict(args=['part=float', 'ties=even', 'only=top', 'jtop=5000', 'kbitstop=14'], deadline=300))])
